@@ -256,6 +256,10 @@ def judge(sp, cfg, res, want=None):
         # thread-count branches run in ascending order for one case
         tcs = TG.thread_counts(ex["eff"])
         idx = tcs.index(ex["T"])
+        if idx == 0 and len(lst) != len(tcs) and it.action != "list":
+            # the body runs once per thread count the options name (0 = the available parallelism, wherever it stands in the list)
+            add("C03", "runs_per_thread_count_e2e", "%s: the body was entered for %d thread counts, the threads option %s names %s" % (
+                case.path(), len(lst), ex["eff"].get("th"), tcs))
         if idx >= len(lst):
             continue
         r = lst[idx]
